@@ -143,7 +143,7 @@ def foreign_tokens(blocks, fmts):
 class C02(Property):
     ID = "C02"
     SESSIONS = ["s0", "s1"]
-    RUNS = {"quick": (400, 400), "thorough": (8000, 8000)}
+    RUNS = {"quick": (1500, 1500), "thorough": (30000, 30000)}
 
     def config(self, rng, tier, faulty):
         cfg = {
@@ -160,7 +160,7 @@ class C02(Property):
                      "toctou"]
             rng.shuffle(kinds)
             cfg["fault_kinds"] = sorted(kinds[: rng.randrange(1, len(kinds) + 1)])
-            cfg["fault_rate"] = rng.pick([0.2, 0.4, 0.6])
+            cfg["fault_rate"] = rng.pick([0.3, 0.5, 0.7])
             cfg["env_kinds"] = cfg["env_kinds"] + rng.pick([[], ["env.capacity", "env.heal"],
                                                             ["env.handle_budget", "env.heal"],
                                                             ["env.readonly", "env.heal"], ["env.foreign_delete"]])
